@@ -190,6 +190,12 @@ VALID = [
 ]
 INVALID = [b"-5\r\nhello\r\n0\r\n\r\n", b"+5\r\nhello\r\n0\r\n\r\n", b"0x5\r\nhello\r\n0\r\n\r\n", b" 5\r\nhello\r\n0\r\n\r\n", b"5\r\nhello\r\nG\r\n0\r\n\r\n", b"5x\r\nhello\r\n0\r\n\r\n"]
 
+# chunk sizes that do not fit the counter (RFC 9112 7.1: "recipients MUST anticipate potentially large hexadecimal numerals and prevent parsing errors due to integer conversion
+# overflows"): 2^64+5 must not be read as 5, 2^63 not as a negative number that slips through.  Refusing the message or waiting for a chunk that cannot arrive are both fine;
+# delivering body bytes or reaching the trailer stage is not.
+OVERFLOW = [b"10000000000000005\r\nhello\r\n0\r\n\r\n", b"100000000000000000000000000000005\r\nhello\r\n0\r\n\r\n", b"8000000000000005\r\nhello\r\n0\r\n\r\n",
+            b"ffffffffffffffff\r\nhello\r\n0\r\n\r\n", b"FFFFFFFFFFFFFFFFFFFFFFFB\r\nhello\r\n0\r\n\r\n", b"10000000000000000\r\n\r\n", b"00000000000000000000005\r\nhello\r\n0\r\n\r\n"]
+
 
 def rule_chunked(P, rid, what):
     from .core import Rule
@@ -226,6 +232,20 @@ def rule_chunked(P, rid, what):
             r.inst((msg, cuts), {"message": msg.decode("latin-1"), "cuts": list(cuts), "terminal": list(got[0])})
             if got[0] != ("fail",):
                 report("K6:evhttp_handle_chunked_read:invalid-chunk-size-accepted", msg, cuts, "not rejected (terminal %s)" % (list(got[0]),))
+    for msg in OVERFLOW:
+        zeros = msg.startswith(b"0000")           # the last one is a control: leading zeros are not an overflow, the size is 5
+        for cuts in [()] + [(k,) for k in (1, msg.find(b"\r"), msg.find(b"\n") + 1, msg.find(b"\n") + 3) if 0 < k < len(msg)]:
+            got = feed(P, msg, cuts)
+            if got[0] == "unknown":
+                r.brk("chunked reader not evaluable on %r: %s" % (msg, got[1]))
+                return r
+            r.inst((msg, cuts), {"message": msg.decode("latin-1"), "cuts": list(cuts), "terminal": list(got[0]), "body": got[1].decode("latin-1")})
+            if zeros:
+                if got[0] != ("trailer",) or got[1] != b"hello":
+                    report("K6:evhttp_handle_chunked_read:valid-message-misread", msg, cuts, "a chunk size with leading zeros is not read as 5 (terminal %s, body %r)" % (list(got[0]), got[1]))
+            elif got[0] not in (("fail",), ()) or got[1] != b"":
+                report("K6:evhttp_handle_chunked_read:chunk-size-overflow", msg, cuts, "a chunk size that does not fit 63 bits is read as a small one: terminal %s, body %r delivered "
+                       "(what follows would be parsed as the next message)" % (list(got[0]), got[1]))
     seen, uniq = set(), []
     for f_ in r.findings:
         if f_.key not in seen:
